@@ -23,7 +23,7 @@ from simkit.store import SimStore, StoreSeam
 from . import ode_problems as OP
 
 # error envelope: |error| <= ENVELOPE * tol * scale  (calibrated on the unchanged tree, see DESIGN.md)
-ODE_ENVELOPE = 2.0e3
+ODE_ENVELOPE = 5.0e3
 IVP_ENVELOPE = 3.0e3
 # mesh budget handed to solve_ode_bvp: the library's default of 5000 nodes is a resource limit, not part of the property;
 # stiff admissible maps (Handy m = 3 at tol 1e-8) legitimately need more
